@@ -3,7 +3,7 @@
    state, so the statements below quantify over ALL states (and all fault schedules).  Truthfulness
    for arbitrary states is C03 (clean => intact, counts) and C02 (Repair writes only data matching
    the recorded hashes), both stated for every state; restated here for the record. *)
-From Gopar Require Import Model.Base Model.CRC Model.GoPath Model.FS Model.Par2 Model.Par1 Proofs.Par2Facts Proofs.Par2Verify Proofs.Par2Faults Proofs.Par1Facts Proofs.Par1Safety Proofs.Par2Clean Proofs.Par2Ignore Proofs.Par1Volumes.
+From Gopar Require Import Model.Base Model.CRC Model.GoPath Model.FS Model.Par2 Model.Par1 Proofs.Par2Facts Proofs.Par2Verify Proofs.Par2Faults Proofs.Par1Facts Proofs.Par1Safety Proofs.Par2Clean Proofs.Par2Ignore Proofs.Par1Volumes Proofs.Par2Counts Proofs.Par2Reader2.
 From Coq Require Import List Permutation. Import ListNotations.
 Open Scope N_scope.
 
@@ -80,3 +80,32 @@ Theorem C13_par1_unparsable_volume_ignored : forall md5 ix k fs fs' b x,
   fst (p1_load md5 ix (io_init fs' [])) = fst (p1_load md5 ix (io_init fs [])).
 Proof. exact p1_load_ignores_unparsable_volume. Qed.
 Print Assumptions C13_par1_unparsable_volume_ignored.
+
+(* TRUTHFUL COUNTS: every slice counted usable - in ANY state - is slice-sized byte data carrying the registered
+   MD5 and CRC-32 of its position (hence the original slice, under the local collision premise:
+   usable_slices_original) *)
+Theorem C13_usable_slices_genuine : forall md5 ix fs ds st1,
+  load_all md5 ix (io_init fs []) = (Ok ds, st1) ->
+  (forall info dat, In info (d_rec (ds_dec ds)) -> fs_lookup fs (file_path ix (di_name info)) = Some dat -> wf_bytes dat) ->
+  NoDup (map di_id (d_rec (ds_dec ds))) ->
+  forall i k s, nth k (fi_shards (nth i (ds_fis ds) dfi)) None = Some s ->
+    length (si_data s) = N.to_nat (d_slice (ds_dec ds)) /\ wf_bytes (si_data s) /\
+    pair_at (d_rec (ds_dec ds)) i k (md5 (si_data s), crc32 (si_data s)).
+Proof. exact usable_slices_genuine. Qed.
+Print Assumptions C13_usable_slices_genuine.
+
+(* THE READER'S ERRORS ARE REAL: the model's packet loop takes fuel and returns the error value when it runs out;
+   that never happens - with any fuel above the length the result is the same, and an error result is exactly one
+   of: a hash-valid packet whose body its own parser rejects, a conflicting duplicate recovery packet, or the
+   end reached without creator packet / set id (reader_err, inductive, both directions) *)
+Theorem C13_reader_never_out_of_fuel : forall md5 expected b,
+  (forall fuel, (length b < fuel)%nat -> read_file_go md5 fuel b expected false pf_empty = read_file md5 expected b) /\
+  (read_file md5 expected b = RFErr <-> reader_err md5 b expected false pf_empty).
+Proof. exact read_file_never_out_of_fuel_file. Qed.
+Print Assumptions C13_reader_never_out_of_fuel.
+
+Theorem C13_volume_reader_never_out_of_fuel : forall md5 sid b,
+  (forall fuel, (length b < fuel)%nat -> read_file_go md5 fuel b (Some sid) false pf_vol0 = read_file_vol md5 sid b) /\
+  (read_file_vol md5 sid b = RFErr <-> reader_err md5 b (Some sid) false pf_vol0).
+Proof. exact read_file_never_out_of_fuel_vol. Qed.
+Print Assumptions C13_volume_reader_never_out_of_fuel.
